@@ -22,6 +22,7 @@ namespace vh
   {
     static std::string dense(Tok& t, std::size_t rows, std::size_t cols);
     static std::string forcing(Tok& t, std::size_t ncell, std::size_t ns);
+    static std::string rates(Tok& t, std::size_t ncell, std::size_t nproc);
   };
 
   /// whole-solver cases: (dense L, storage order, LU kind)
@@ -29,5 +30,6 @@ namespace vh
   struct SolveCfg
   {
     static std::string solve(Tok& t, std::size_t integ);
+    static std::string hist(Tok& t, std::size_t integ);
   };
 }  // namespace vh
